@@ -80,7 +80,7 @@ def run(prog: Program, rep: Report, tier: str) -> None:
             continue
         derived[g] = v
         want = LS.term_of(prog, entry, R)
-        rep.check(canon(v) == canon(want), "R8.1", g, where, f"{g} extracts {T.show(v)[:260]}; the reference layout says {T.show(want)[:260]}", key=f"R8.1|{g}")
+        rep.check_term(canon(v) == canon(want), v, "R8.1", g, where, f"{g} extracts {T.show(v)[:260]}; the reference layout says {T.show(want)[:260]}", key=f"R8.1|{g}")
     # login session
     lci = prog.cls(f"{MSGS}:SwitcherLoginResponse")
     I = Interp(prog)
@@ -117,7 +117,7 @@ def run(prog: Program, rep: Report, tier: str) -> None:
                 gotv = o.state.heap[o.value[1]].fields.get(fname)
                 if gotv is None:
                     bad = f"{clsname}.{fname} is never assigned"
-                elif T.contains_top(gotv):
+                elif T.contains_top(gotv) or (T.imprecise(gotv) and canon(gotv) != canon(restrict(wantv, o.state.pc)) and canon(gotv) != canon(wantv)):
                     bad = "UNDECIDED"
                 elif canon(gotv) != canon(restrict(wantv, o.state.pc)) and canon(gotv) != canon(wantv):
                     bad = f"{clsname}.{fname} is {T.show(gotv)[:200]}; expected role {role}: {T.show(wantv)[:200]}"
@@ -145,7 +145,7 @@ def run(prog: Program, rep: Report, tier: str) -> None:
                 vb = LS.term_of(prog, bentry, B.MSG)  # accepted equivalent form -> its reference meaning
             shifted = shift_ranges(vb, B.MSG, R, -2 * d["shift_bytes"])
             same = canon(core(shifted)) == canon(core(vr))
-            rep.check(same, "R8.3", f"{fam}: {bg} ~ {rg}", where,
+            rep.check_term(same, (shifted, vr), "R8.3", f"{fam}: {bg} ~ {rg}", where,
                       f"broadcast getter {bg} shifted by {d['shift_bytes']} bytes is {T.show(core(shifted))[:200]} but the reply getter {rg} is {T.show(core(vr))[:200]}: the two parsers disagree on offset, width or byte order",
                       key=f"R8.3|{fam}|{bg}")
     helper_forms(prog, rep)
